@@ -10,6 +10,56 @@ import (
 // ------------------------------------------------------------------ vectors
 
 func genValid(r *rng, ver int) string {
+	if r.chance(0.08) {
+		return genCorner(r, ver)
+	}
+	return genValidPlain(r, ver)
+}
+
+// genCorner: corner objects - every base metric at the first (or every one at
+// the last) value of its list, optional metrics random. Scores sit on their
+// extremes there (10.0, 0.0), which is where rounding ties and caps live.
+func genCorner(r *rng, ver int) string {
+	sp := specs[ver]
+	first := r.chance(0.5)
+	// the tables list values in different orders per metric; "all first" and
+	// "all last" are two corners of the cube, and a third one mixes per metric
+	mix := r.chance(0.3)
+	var parts []string
+	pOpt := r.float()
+	for _, m := range sp.Metrics {
+		pick := func() string {
+			f := first
+			if mix {
+				f = r.chance(0.5)
+			}
+			if f {
+				return m.Values[0]
+			}
+			return m.Values[len(m.Values)-1]
+		}
+		switch {
+		case m.Group == 0:
+			parts = append(parts, m.Abv+":"+pick())
+		case ver == 20:
+			// whole groups only: decided below
+		case r.chance(pOpt):
+			parts = append(parts, m.Abv+":"+r.pick(m.Values))
+		}
+	}
+	if ver == 20 {
+		shape := r.intn(4)
+		for _, m := range sp.Metrics {
+			if (m.Group == 1 && (shape == 1 || shape == 3)) || (m.Group == 2 && shape >= 2) {
+				parts = append(parts, m.Abv+":"+r.pick(m.Values))
+			}
+		}
+		return strings.Join(parts, "/")
+	}
+	return sp.Header + "/" + strings.Join(parts, "/")
+}
+
+func genValidPlain(r *rng, ver int) string {
 	sp := specs[ver]
 	var parts []string
 	switch ver {
